@@ -61,8 +61,11 @@ type itState struct {
 }
 
 type model struct {
-	bk        *backingDesc
-	skipScans bool // nil-end probe over the real backing: scans are only recorded, not judged
+	bk *backingDesc
+	// nil-end probe over the real backing: a nil-upper-bound scan that lacks live keys is only
+	// counted (nilEndMiss); everything else about scans is judged as usual
+	softNilEnd bool
+	nilEndMiss int
 
 	ov       map[bkey]*ovEntry
 	hist     map[bkey][]histEnt
@@ -418,9 +421,6 @@ func (m *model) judgeItems(i int, op Op, it *itState, obs *Obs) *problem {
 	if obs.IterErr != "" {
 		return &problem{"sandbox|iterator-error", fmt.Sprintf("op %d %s: iterator error %q", i, op, obs.IterErr)}
 	}
-	if m.skipScans {
-		return nil
-	}
 	ctx := func() string {
 		return fmt.Sprintf("op %d %s over %s[%s,%s) opened at op %d yielded %s", i, op, it.b, bnd(it.lo, false), bnd(it.hi, it.hiNil), it.open, obs.brief())
 	}
@@ -454,7 +454,9 @@ func (m *model) judgeItems(i int, op Op, it *itState, obs *Obs) *problem {
 		if degenerate(it.lo, it.hi, it.hiNil) || !rangeHas(item.K, it.lo, it.hi, it.hiNil) {
 			return &problem{"sandbox|scan-yields-key-outside-range", ctx() + fmt.Sprintf(": key %q", item.K)}
 		}
-		if mk, bad := missing(it.last, it.hasLast, item.K, true); bad {
+		if mk, bad := missing(it.last, it.hasLast, item.K, true); bad && m.softNilEnd && it.hiNil {
+			m.nilEndMiss++
+		} else if bad {
 			return &problem{"sandbox|scan-misses-live-key", ctx() + fmt.Sprintf(": live key %q was skipped", mk)}
 		}
 		live, withVal := m.couldBeLiveWith(k, item.V, it.open, i)
@@ -474,7 +476,7 @@ func (m *model) judgeItems(i int, op Op, it *itState, obs *Obs) *problem {
 				return &problem{"sandbox|scan-yields-key-deleted-in-same-execution", ctx() + fmt.Sprintf(": key %q was deleted by this execution and is yielded with the delete marker as value", item.K)}
 			case string(item.V) == delMarker && !execWritten && be.Kind == bkDeleted:
 				return &problem{"sandbox|scan-yields-key-deleted-in-backing-state", ctx() + fmt.Sprintf(": key %q is deleted in the backing state and is yielded with the delete marker as value", item.K)}
-			case len(item.V) == 0 && !live && be.Kind == bkNever && m.looked[k]:
+			case len(item.V) == 0 && be.Kind == bkNever && m.looked[k]:
 				return &problem{"sandbox|scan-yields-absent-key-that-was-looked-up", ctx() + fmt.Sprintf(": key %q was never written (backing: never-written; this execution looked it up and found it absent) and is yielded with an empty value", item.K)}
 			case live:
 				_, want := m.cur(k)
@@ -497,7 +499,9 @@ func (m *model) judgeItems(i int, op Op, it *itState, obs *Obs) *problem {
 			it.done = true
 			return nil
 		}
-		if mk, bad := missing(it.last, it.hasLast, "", false); bad && !it.done {
+		if mk, bad := missing(it.last, it.hasLast, "", false); bad && m.softNilEnd && it.hiNil {
+			m.nilEndMiss++
+		} else if bad && !it.done {
 			return &problem{"sandbox|scan-misses-live-key", ctx() + fmt.Sprintf(": iterator ended but live key %q was not yielded", mk)}
 		}
 		it.done = true
